@@ -124,11 +124,11 @@ fn main() {
         }
         "C36" => {
             run.rule = "a bus connection (client handshake + Hello against a fake bus) and histories of request_name_with_flags (with/without AllowReplacement; the fake bus answers with each reply code), release_name (each reply code), NameAcquired / NameLost from the bus driver (only where a conformant bus could send them) and forged ones from another sender; oracle = bookkeeping model: a request is answered locally with AlreadyOwner / InQueue exactly when the bus last granted / queued the name and has not taken it away, otherwise the bus is asked and its answer returned; release asks the bus exactly when the name is held or queued and succeeds when the bus confirms; forged signals change nothing; AddMatch/RemoveMatch never doubled; non-trivial = a name changing state at least twice, or a forged signal in the history".into();
-            vec![spec("names", 5_000, 150_000, 120, c_bus::c36_case)]
+            vec![spec("names", 30_000, 300_000, 120, c_bus::c36_case)]
         }
         "C37" => {
             run.rule = "a bus connection over the fake bus (which records AddMatch / RemoveMatch) and histories of creating streams for 4 rules (3 signal rules, 1 method-call rule), cloning them, dropping / async-dropping them, creating proxies and proxy signal streams to a unique and to a well-known name; after every operation the system is run to rest; oracle: AddMatch never for a registered rule, RemoveMatch never for an unregistered one, the registered set equals the distinct signal rules with a live subscriber (incl. the owner-change rule of well-known-name signal streams), empty after everything is dropped; non-trivial = a drop while another subscriber of the same rule lives".into();
-            vec![spec("matches", 5_000, 150_000, 160, c_bus::c37_case)]
+            vec![spec("matches", 30_000, 300_000, 160, c_bus::c37_case)]
         }
         "C38" => {
             run.level = "fault_enumeration".into();
